@@ -40,7 +40,7 @@ impl Monitor for C07 {
          scatter_sub_assign, arange, repeat, quot_rem, mul_constant_add, +, -, scalar + array, segmented_sum, sort_by, connected_components / to_dense on edge lists with self loops and \
          parallel edges; usize and String (non-Copy) element types for the generic primitives. Oracle: scalar definitions; open choices accepted as the contract says (argsort = any sorting \
          permutation, component labels = any dense numbering with the right partition, sparse_bincount = each value once in any order, scatter = any written value at repeated indices, zero() \
-         = the zero indices as a set). non-trivial = non-empty input array; distinct = hash of the inputs."
+         = the zero indices as a set). non-trivial = non-empty input array; distinct = hash of the inputs. Also: get / get_range / set_range (all six range forms, excluded start bound, bounds anywhere in the array) / scatter_assign / scatter_assign_constant / sort_by on String elements, bincount at the tight size, irregular graphs of up to 700 nodes for connected components and dense numbering also for the tournament shapes."
     }
     fn corpus_len(&self) -> u64 {
         EXHAUSTIVE + 6
